@@ -1,4 +1,182 @@
-From Coq Require Import ZArith NArith List Bool.
+(* C07 — tECDSA DKG: operating members derive one wallet key and the same misbehaving-member list;
+   excluded members are listed as misbehaving; messages from excluded members / other sessions
+   never influence the outcome.
+   ONLY property statements; proofs are in Proofs/C07.v.  tss-lib key generation is an ORACLE:
+   it appears only as the explicit premise of [same_wallet_key]. *)
+From Coq Require Import ZArith NArith List Bool Sorted Permutation.
 From KV Require Import Common.Verdict Model.C07 Proofs.C07.
-Theorem stub : True. Proof. exact Proofs.C07.stub. Qed.
-Print Assumptions stub.
+Import ListNotations.
+Open Scope N_scope.
+
+(* the members 1..size that are not in the exclusion list, ascending *)
+Definition not_excluded (size : nat) (ex : list N) : list N :=
+  filter (fun m => negb (memN m ex)) (map N.of_nat (seq 1 size)).
+
+(* ---- every operating member builds the same group view, the same strictly sorted party-id list
+        and the same misbehaved list from (seed, excluded); whatever its own index, operators
+        table or session *)
+Theorem same_party_set :
+  forall size t seed i j ex ops_i ops_j s_i s_j,
+    memN i ex = false -> memN j ex = false ->
+    let mi := execute_member size t seed i ex ops_i s_i in
+    let mj := execute_member size t seed j ex ops_j s_j in
+    mb_group mi = mb_group mj /\ operating (mb_group mi) = operating (mb_group mj)
+    /\ party_keys mi = party_keys mj /\ misbehaved (mb_group mi) = misbehaved (mb_group mj).
+Proof. exact Proofs.C07.same_party_set. Qed.
+Print Assumptions same_party_set.
+
+(* ... and that list is exactly seed + m for the non-excluded m of 1..size, strictly ascending, so
+   the excluded members never join the party set and every operating member is in it *)
+Theorem party_set_exact :
+  forall size t seed i ex ops s,
+    (size <= 255)%nat -> memN i ex = false ->
+    let mb := execute_member size t seed i ex ops s in
+    operating (mb_group mb) = not_excluded size ex
+    /\ party_keys mb = map (party_key seed) (not_excluded size ex)
+    /\ StronglySorted Z.lt (party_keys mb)
+    /\ (1 <= i <= N.of_nat size -> own_key mb = Some (party_key seed i) /\ In (party_key seed i) (party_keys mb)).
+Proof. exact Proofs.C07.party_set_exact. Qed.
+Print Assumptions party_set_exact.
+
+(* ORACLE PREMISE: an honest tss-lib key generation run over a party set and threshold has one
+   outcome ([keygen_run ps thr k] = "the run over parties ps with threshold thr yields key k").
+   Under it any two operating members obtain the same wallet key. *)
+Theorem same_wallet_key :
+  forall (K : Type) (keygen_run : list Z -> Z -> K -> Prop),
+    (forall ps thr k1 k2, keygen_run ps thr k1 -> keygen_run ps thr k2 -> k1 = k2) ->
+    forall size t seed i j ex ops_i ops_j s_i s_j ki kj,
+      memN i ex = false -> memN j ex = false ->
+      let mi := execute_member size t seed i ex ops_i s_i in
+      let mj := execute_member size t seed j ex ops_j s_j in
+      keygen_run (party_keys mi) (honest_threshold (mb_group mi) - 1)%Z ki ->
+      keygen_run (party_keys mj) (honest_threshold (mb_group mj) - 1)%Z kj ->
+      ki = kj.
+Proof. exact Proofs.C07.same_wallet_key. Qed.
+Print Assumptions same_wallet_key.
+
+(* ---- the misbehaved list of an operating member is strictly sorted and contains exactly the
+        excluded members of the group *)
+Theorem excluded_listed_as_misbehaving :
+  forall size t seed i ex ops s,
+    (size <= 255)%nat -> memN i ex = false ->
+    let g := mb_group (execute_member size t seed i ex ops s) in
+    StronglySorted N.lt (misbehaved g)
+    /\ forall m, In m (misbehaved g) <-> (In m ex /\ 1 <= m <= N.of_nat size).
+Proof. exact Proofs.C07.excluded_listed. Qed.
+Print Assumptions excluded_listed_as_misbehaving.
+
+Theorem misbehaved_list_same_for_all :
+  forall size t seed_i seed_j i j ex ops_i ops_j s_i s_j,
+    memN i ex = false -> memN j ex = false ->
+    misbehaved (mb_group (execute_member size t seed_i i ex ops_i s_i))
+    = misbehaved (mb_group (execute_member size t seed_j j ex ops_j s_j)).
+Proof. exact Proofs.C07.misbehaved_same. Qed.
+Print Assumptions misbehaved_list_same_for_all.
+
+(* ---- admission.  [foreign] : the message comes from the member itself, from outside the group,
+        from an excluded member, is signed by a key that does not hold the sender's seat, or
+        belongs to another session *)
+Definition foreign (size : nat) (self : N) (ex ops : list N) (session : N) (m : msg) : Prop :=
+  m_sender m = self \/ ~ (1 <= m_sender m <= N.of_nat size) \/ In (m_sender m) ex
+  \/ nth_error ops (N.to_nat (m_sender m - 1)) <> Some (m_op m) \/ m_session m <> session.
+
+(* Receive is the same function in every key-generation state; a delivery is (state, message) *)
+Definition deliver (mb : member) (h : history) (sm : N * msg) : history := receive mb h (snd sm).
+
+(* a foreign message leaves the history unchanged, in every state and after any prefix of
+   deliveries; hence the history (and everything computed from it: receivedMessages,
+   CanTransition) after ANY delivery sequence equals the one obtained when the foreign messages
+   are removed from the sequence *)
+Theorem foreign_messages_never_stored :
+  forall size t seed self ex ops session,
+    (size <= 255)%nat ->
+    let mb := execute_member size t seed self ex ops session in
+    (forall h state m, foreign size self ex ops session m -> deliver mb h (state, m) = h)
+    /\ (forall (keep : N * msg -> bool) h0 dels,
+          (forall sm, In sm dels -> keep sm = false -> foreign size self ex ops session (snd sm)) ->
+          fold_left (deliver mb) dels h0 = fold_left (deliver mb) (filter keep dels) h0)
+    /\ (forall h0 dels m, In m (fold_left (deliver mb) dels h0) ->
+          In m h0 \/ (~ foreign size self ex ops session m /\ exists st, In (st, m) dels)).
+Proof. exact Proofs.C07.foreign_never_stored. Qed.
+Print Assumptions foreign_messages_never_stored.
+
+(* ---- a legitimate message is stored whatever state it is delivered to (so a message for a later
+        phase arriving early is kept), stays stored, and its sender is represented in
+        receivedMessages of its kind exactly once (duplicates are ignored) *)
+Theorem history_keeps_future_messages :
+  forall size t seed self ex ops session,
+    (size <= 255)%nat ->
+    let mb := execute_member size t seed self ex ops session in
+    forall h0 state m later,
+      ~ foreign size self ex ops session m ->
+      let h := fold_left (deliver mb) later (deliver mb h0 (state, m)) in
+      In m (all_received h (m_kind m))
+      /\ In (m_sender m) (senders (received h (m_kind m)))
+      /\ NoDup (senders (received h (m_kind m))).
+Proof. exact Proofs.C07.history_keeps. Qed.
+Print Assumptions history_keeps_future_messages.
+
+(* ---- delivery order does not matter for what is stored (as a multiset) nor for CanTransition *)
+Theorem delivery_order_irrelevant :
+  forall mb dels dels' s,
+    Permutation dels dels' ->
+    Permutation (fold_left (deliver mb) dels []) (fold_left (deliver mb) dels' [])
+    /\ can_transition mb (fold_left (deliver mb) dels []) s
+       = can_transition mb (fold_left (deliver mb) dels' []) s.
+Proof. exact Proofs.C07.order_irrelevant. Qed.
+Print Assumptions delivery_order_irrelevant.
+
+(* ---- party ids *)
+Theorem partyid_roundtrip :
+  forall seed m, m < 256 -> to_member_index seed (party_key seed m) = m.
+Proof. exact Proofs.C07.partyid_roundtrip. Qed.
+Print Assumptions partyid_roundtrip.
+
+(* ---- soundness of the executable property evaluated on the implementation's outputs *)
+(* probe: whatever the implementation stored for kind k comes from delivered, non-foreign
+   messages of that kind; receivedMessages has one entry per stored sender *)
+Theorem spec_probe_sound :
+  forall c, spec_probe c = true ->
+    forall k, k < 6 ->
+      let hk := nth (N.to_nat k) (o_history c) [] in
+      let rk := nth (N.to_nat k) (o_received c) [] in
+      (forall x, In x hk -> exists st m, In (st, m) (p_msgs c) /\ m_sender m = x /\ m_kind m = k
+          /\ m_sender m <> p_self c /\ 1 <= m_sender m <= p_size c
+          /\ ~ In (m_sender m) (p_dq c) /\ ~ In (m_sender m) (p_ia c)
+          /\ nth_error (p_ops c) (N.to_nat (m_sender m - 1)) = Some (m_op m)
+          /\ m_session m = p_session c)
+      /\ NoDup rk /\ (forall x, In x rk <-> In x hk).
+Proof. exact Proofs.C07.spec_probe_sound. Qed.
+Print Assumptions spec_probe_sound.
+
+(* real runs: all members that completed report one key, one misbehaved list, one party set;
+   every excluded group member is listed and its party id is not in the set; each finisher's own
+   party id is seed + index and belongs to the common set *)
+Theorem spec_run_sound :
+  forall c, spec_run c = true ->
+    forall o1 o2, In o1 (r_obs c) -> In o2 (r_obs c) -> is_done o1 = true -> is_done o2 = true ->
+      mo_key o1 = mo_key o2 /\ mo_mis o1 = mo_mis o2 /\ mo_ks o1 = mo_ks o2
+      /\ (forall e, In e (r_excluded c) -> 1 <= e <= r_size c ->
+            In e (mo_mis o1) /\ ~ In (party_key (r_seed c) e) (mo_ks o1))
+      /\ mo_share o1 = party_key (r_seed c) (mo_member o1) /\ In (mo_share o1) (mo_ks o2).
+Proof. exact Proofs.C07.spec_run_sound. Qed.
+Print Assumptions spec_run_sound.
+
+(* ---- every model output satisfies the executable property *)
+Theorem model_satisfies_spec_probe :
+  forall c, p_size c < 256 -> length (p_ops c) = N.to_nat (p_size c) ->
+    agree_probe c = true -> spec_probe c = true.
+Proof. exact Proofs.C07.model_spec_probe. Qed.
+Print Assumptions model_satisfies_spec_probe.
+
+(* for runs the wallet key is the oracle's: premise = the key identifier is a function of the
+   party set the member built *)
+Theorem model_satisfies_spec_run :
+  forall (keyid : list Z -> N) c,
+    r_size c < 256 -> (0 <= r_seed c)%Z ->
+    (forall o, In o (r_obs c) ->
+       1 <= mo_member o <= r_size c /\ ~ In (mo_member o) (r_excluded c)
+       /\ finished_ok o = true /\ mo_key o = keyid (mo_ks o)) ->
+    agree_run c = true -> spec_run c = true.
+Proof. exact Proofs.C07.model_spec_run. Qed.
+Print Assumptions model_satisfies_spec_run.
